@@ -142,6 +142,15 @@ def corr_jobs(chk):
 
 
 # ---------------------------------------------------------------- corrmtx
+def _sorted_rows(mat):
+    a = np.asarray(mat)
+    if a.ndim != 2 or a.size == 0:
+        return a
+    a = a.astype(complex)
+    keys = tuple(k for j in range(a.shape[1] - 1, -1, -1) for k in (np.round(a[:, j].imag, 9), np.round(a[:, j].real, 9)))
+    return a[np.lexsort(keys)]
+
+
 def replay_corrmtx(chk, st, rng):
     from spectrum import corrmtx
     N, m, method, mat = st['N'], st['m'], st['method'], st['mat']
@@ -160,7 +169,9 @@ def replay_corrmtx(chk, st, rng):
             if not ok:
                 chk.violation('C09:corrmtx:%s:raises' % method, 'corrmtx raises %r' % (res,), case)
                 continue
-            bad = cmp_vec(np.asarray(res), exp, tol=1e-12, name='matrix')
+            # The statement pins the data matrix through its Gram matrix (and C12 / C14 through least squares): both are
+            # invariant under a permutation of the ROWS, so rows are compared as a multiset (lexicographic order).
+            bad = cmp_vec(_sorted_rows(res), _sorted_rows(exp), tol=1e-12, name='matrix (rows as a multiset)')
             if bad:
                 chk.violation('C09:corrmtx:%s:%s:%s' % (method, 'complex' if cplx else 'real', kind if kind not in ('ndarray', 'list') else 'default'),
                               'corrmtx(N=%d, m=%d, %s) differs from its definition: %s' % (N, m, method, bad), dict(case, observed=res))
